@@ -174,6 +174,17 @@ func genU64() *rapid.Generator[uint64] {
 
 func genBytes(min, max int) *rapid.Generator[[]byte] {
 	return rapid.Custom(func(t *rapid.T) []byte {
+		if rapid.IntRange(0, 19).Draw(t, "bigblob") == 0 {
+			// binary data of a size at a buffer boundary (what an encoder might
+			// write in pieces): a seeded pattern instead of drawn bytes
+			n := rapid.SampledFrom([]int{255, 256, 257, 1023, 1024, 1025, 3071, 3072, 3073, 4095, 4096, 4097, 4098, 8191, 8192, 8193, 12289, 65537}).Draw(t, "blobsize")
+			k := byte(rapid.IntRange(1, 250).Draw(t, "blobseed"))
+			b := make([]byte, n)
+			for i := range b {
+				b[i] = byte(i)*k + byte(i>>8)
+			}
+			return b
+		}
 		n := rapid.IntRange(min, max).Draw(t, "nbytes")
 		b := make([]byte, n)
 		for i := range b {
